@@ -582,11 +582,28 @@ fn from_placeholder(s: &str) -> Option<String> {
     }
     None
 }
-fn jv_map_strings(v: &JV, f: &dyn Fn(&str) -> Option<String>) -> JV {
+/// implementation JSON -> exchange form: bech32 strings become placeholders, a string holding JSON text (embedded datum /
+/// metadatum) becomes the array ["\u{1}X", <parsed document>]
+fn jv_to_ph(v: &JV) -> JV {
     match v {
-        JV::String(s) => JV::String(f(s).unwrap_or_else(|| s.clone())),
-        JV::Array(l) => JV::Array(l.iter().map(|x| jv_map_strings(x, f)).collect()),
-        JV::Object(m) => { let mut o = serde_json::Map::new(); for (k, x) in m.iter() { o.insert(f(k).unwrap_or_else(|| k.clone()), jv_map_strings(x, f)); } JV::Object(o) }
+        JV::String(s) => {
+            if let Some(p) = to_placeholder(s) { return JV::String(p); }
+            if s.starts_with('{') { if let Ok(inner @ JV::Object(_)) = serde_json::from_str::<JV>(s) { return JV::Array(vec![JV::String("\u{1}X".to_string()), inner]); } }
+            v.clone()
+        }
+        JV::Array(l) => JV::Array(l.iter().map(jv_to_ph).collect()),
+        JV::Object(m) => { let mut o = serde_json::Map::new(); for (k, x) in m.iter() { o.insert(to_placeholder(k).unwrap_or_else(|| k.clone()), jv_to_ph(x)); } JV::Object(o) }
+        _ => v.clone(),
+    }
+}
+fn jv_from_ph(v: &JV) -> JV {
+    match v {
+        JV::String(s) => JV::String(from_placeholder(s).unwrap_or_else(|| s.clone())),
+        JV::Array(l) => {
+            if l.len() == 2 { if let JV::String(m) = &l[0] { if m == "\u{1}X" { return JV::String(serde_json::to_string(&l[1]).unwrap()); } } }
+            JV::Array(l.iter().map(jv_from_ph).collect())
+        }
+        JV::Object(m) => { let mut o = serde_json::Map::new(); for (k, x) in m.iter() { o.insert(from_placeholder(k).unwrap_or_else(|| k.clone()), jv_from_ph(x)); } JV::Object(o) }
         _ => v.clone(),
     }
 }
@@ -599,11 +616,12 @@ macro_rules! tj_arm {
                 let first = match x.to_json() {
                     Err(_) => "err".to_string(),
                     Ok(s) => match serde_json::from_str::<JV>(&s) {
-                        Ok(v) => { let mut o = String::new(); jv_tokens(&jv_map_strings(&v, &to_placeholder), &mut o); format!("ok {}", o.trim_start()) }
+                        Ok(v) => { let mut o = String::new(); jv_tokens(&jv_to_ph(&v), &mut o); format!("ok {}", o.trim_start()) }
                         Err(_) => "harness-unparseable-json".to_string(),
                     },
                 };
-                let text = serde_json::to_string(&jv_map_strings(&j_to_jv($mj), &from_placeholder)).unwrap();
+                if first == "err" { return "err".to_string(); }
+                let text = serde_json::to_string(&jv_from_ph(&j_to_jv($mj))).unwrap();
                 let back = leg(|| match <$t>::from_json(&text) {
                     Err(_) => "err".to_string(),
                     Ok(y) => format!("ok {} eq={}", hex_or_dash(&y.to_bytes()), (y == x) as u8),
